@@ -794,6 +794,57 @@ def check_concurrent_generated_etags(W, rec, rng):
         rec.observe("concurrent_etag_injected_yields", inj[0])
 
 
+def check_validators_on_range_requests(W, rec):
+    """A Range header does not switch the validators off: a GET/HEAD whose If-None-Match / If-Modified-Since match the representation
+    is answered 304 whether or not it also asks for a part (RFC 9110 13.2.2: the preconditions are evaluated before Range), a request
+    whose validators do not match gets the part it asked for, and a 412 appears only for an If-Match that does not admit the tag."""
+    Response, create_environ = W["Response"], W["create_environ"]
+    from werkzeug.http import http_date as d
+
+    body = b"0123456789"
+    VAL = [{"If-None-Match": '"x"'}, {"If-None-Match": 'W/"x"'}, {"If-None-Match": '"y", "x"'}, {"If-None-Match": "*"}, {"If-None-Match": '"y"'},
+           {"If-Modified-Since": d(T0)}, {"If-Modified-Since": d(T0 + timedelta(seconds=5))}, {"If-Modified-Since": d(T0 - timedelta(seconds=5))},
+           {"If-None-Match": '"y"', "If-Modified-Since": d(T0)}, {"If-None-Match": '"x"', "If-Modified-Since": d(T0 - timedelta(seconds=5))}, {}]
+    RNG = [("bytes=0-1", (0, 2)), ("bytes=3-", (3, 10)), ("bytes=-4", (6, 10)), ("bytes=0-", (0, 10)), ("bytes=50-60", None), ("bytes=5-2", None)]
+    for hv, (rh, want), tagged, method, supply in itertools.product(VAL, RNG, (True, False), ("GET", "HEAD"), ("bytes", "list", "gen")):
+        inm, ims = hv.get("If-None-Match"), hv.get("If-Modified-Since")
+        if tagged and inm is not None:
+            match = bool(weak_list_has(inm, "x"))  # the tag comparison takes precedence over the date
+        elif ims is not None:
+            match = T0 <= parsedate_to_datetime(ims)
+        else:
+            match = False
+        rec.case()
+        rec.observe("validators_on_range_requests")
+        case = {"family": "validators-on-range-requests", "headers": hv, "Range": rh, "etag_on_response": tagged, "method": method, "supply": supply}
+        r = Response(body if supply == "bytes" else [body[:4], body[4:]] if supply == "list" else (body[i:i + 3] for i in range(0, 10, 3)))
+        if tagged:
+            r.set_etag("x")
+        r.last_modified = T0
+        env = create_environ(method=method, headers=dict(hv, Range=rh))
+        try:
+            r.make_conditional(env, accept_ranges=True, complete_length=10)
+            it, status, hd = r.get_wsgi_response(env)
+            data = b"".join(it)
+            st = int(status[:3])
+        except W["HTTPException"] as e:
+            st, data, hd = e.code, b"", []
+        rec.observe(f"range+validators:{st}")
+        if match:
+            ok = st == 304 or (want is None and st == 416)
+            if not ok:
+                rec.violation("C11/validators-match-but-range-request-not-304", f"status {st}; {case}", case, monitor="validator-evaluator")
+            elif st == 304 and data:
+                rec.violation("C11/304-with-body", f"{data!r}; {case}", case, monitor="validator-evaluator")
+        else:
+            if st in (304, 412):
+                rec.violation(f"C11/range-request-got-{st}-although-validators-do-not-match", f"{case}", case, monitor="validator-evaluator")
+            elif want is None and st != 416:
+                rec.violation("C11/200-for-unsatisfiable-range", f"status {st}; {case}", case, monitor="range-evaluator")
+            elif want is not None and (st != 206 or (method == "GET" and data != body[want[0]:want[1]])):
+                rec.violation("C11/206-body-not-the-declared-slice", f"status {st} body {data!r}, asked {rh}; {case}", case, monitor="range-evaluator")
+
+
 def world():
     from werkzeug import wsgi
     from werkzeug.test import create_environ
@@ -876,6 +927,9 @@ def run(shard, rec, rng):
         if idx % 4 == 0:
             with rec.guard({"family": "shared-and-growing-bodies"}, "C11"):
                 check_shared_and_growing_bodies(W, rec, tmpdir)
+        if idx % 4 == 2:
+            with rec.guard({"family": "validators-on-range-requests"}, "C11"):
+                check_validators_on_range_requests(W, rec)
         if idx % 4 == 1:
             with rec.guard({"family": "opaque-tag-texts"}, "C11"):
                 check_opaque_tag_texts(W, rec)
